@@ -100,6 +100,7 @@ template <class X> struct Hist {
                 { LibScope ls; rc = x.mgr < 2 ? X::ParseSingleUriExMm(&x.u, tb->p, tb->p + tb->n, &ep, mm(x.mgr)) : X::ParseSingleUriEx(&x.u, tb->p, tb->p + tb->n, &ep); }
                 if (x.mgr < 2 && lw.available && lw.allocs) c->violation("C13", fmt("hist/%s/parse/libc-allocation-with-custom-manager", X::tag()), esc(t));
                 if (rc != URI_SUCCESS) continue;
+                if (!faithful_uri<X>(x.u, t)) { c->count("skipped_unfaithful_parse"); LibScope ls; if (x.mgr < 2) X::FreeUriMembersMm(&x.u, mm(x.mgr)); else X::FreeUriMembers(&x.u); continue; }
                 x.live = true; x.texts.clear(); x.texts.push_back(tb); x.origin = "parse(\"" + esc(t) + "\")"; log(fmt("s%d=", d) + x.origin);
                 check_object(d, "parse");
             } else if (op == 3) {                            // make owner
